@@ -492,3 +492,18 @@ Theorem C09_response_no_registration : forall H dsz uni c r ops,
   run_cbs H dsz uni c r st cbs = spec_response H dsz uni c r ops.
 Proof. exact response_no_registration. Qed.
 Print Assumptions C09_response_no_registration.
+
+(* Seventh round: LEGACY tickets ('userid_type:unicode', what earlier releases of this helper issued for text user ids and
+   what the decoder table keeps an entry for).  spec_legacy_unicode is what the property demands of a validly signed one: the
+   text user id inside the timeout window, nothing after.  What identify() does depends on the regenerated decoder table:
+   with the original entry `lambda x: utf_8_decode(x)[0]` (DUtf8) it RAISES -- the property is refuted on that tree --,
+   with the repaired entry `lambda x: x if isinstance(x, str) else utf_8_decode(x)[0]` (DUtf8Text) it meets the spec. *)
+Theorem C09_legacy_unicode_identify : forall H dsz uni c r x,
+  spec_legacy_unicode H dsz uni c r = Some x ->
+  match lookup_text unicode_tag decoders with
+  | Some DUtf8Text => identify_pre H dsz uni c r = x
+  | Some DUtf8 => identify_pre H dsz uni c r = match x with INone => INone | _ => IRaise end
+  | _ => True
+  end.
+Proof. exact legacy_unicode_identify. Qed.
+Print Assumptions C09_legacy_unicode_identify.
